@@ -72,7 +72,9 @@ def cases(O):
     for i, c in enumerate(gen):
         rng = random.Random("%s/c09lay/%d" % (O.seed, i))
         c["calls"][0]["code"] = layout_variants(c["calls"][0]["code"], rng)
-        c["calls"][0]["file"] = rng.choice(["dir/sub/test.js", "test.js", "/abs/path/file.js", "a b/cé.js", "/srv/lib/legacy\\greet.js", "rel\\win.js"])
+        c["calls"][0]["file"] = rng.choice(["dir/sub/test.js", "test.js", "/abs/path/file.js", "a b/cé.js", "/srv/lib/legacy\\greet.js", "rel\\win.js",
+                                         # bytes whose 6-bit groups are 62 / 63 at every alignment: the trailer is STANDARD base64 (+ and /), which strict decoders insist on
+                                         "/srv/app/routes/a~b.js", "what?.js", "o\u00e9.js", "~a.js", "ab~.js", "x>y?z~.js", "\u00ff\u00ff\u00ff.js", "a/~~~/???.js"])
     cs += gen + E.finding_cases("C09", opts)
     return cs
 
@@ -82,7 +84,7 @@ def decode_trailer(content):
     if len(parts) != 2:
         return None, "content has %d inline trailers" % (len(parts) - 1)
     try:
-        return json.loads(base64.b64decode(parts[1].strip())), None
+        return json.loads(base64.b64decode(parts[1].strip(), validate=True)), None
     except Exception as e:
         return None, "trailer does not decode: %s" % e
 
